@@ -100,13 +100,25 @@ class LanguageClassesFactory:
             assoc_json_subentry = create_association_entry(assoc)
             subentry_name = assoc.name + '_' + assoc.left_field.asset.name + '_' \
                 + assoc.right_field.asset.name
-            if subentry_name in self.json_schema['definitions']\
-                    ['LanguageAssociation']['definitions'][assoc.name]\
-                    ['definitions']:
+            # The class name must not be taken yet, neither by another
+            # subentry nor by an association of the language ('_' is a legal
+            # character of identifiers, so joined names can coincide).
+            taken_names = {other_assoc.name \
+                for other_assoc in self.lang_graph.associations}
+            for other_entry in self.json_schema['definitions']\
+                    ['LanguageAssociation']['definitions'].values():
+                taken_names.update(other_entry.get('definitions', {}))
+            if subentry_name in taken_names:
                 # Several associations share both the name and the asset
                 # types, only their field names tell them apart.
                 subentry_name += '_' + assoc.left_field.fieldname + '_' \
                     + assoc.right_field.fieldname
+            unique_subentry_name = subentry_name
+            counter = 2
+            while unique_subentry_name in taken_names:
+                unique_subentry_name = subentry_name + '_' + str(counter)
+                counter += 1
+            subentry_name = unique_subentry_name
 
             logger.info('Creating %s subentry association.', subentry_name)
             assoc_json_subentry['title'] = subentry_name
